@@ -101,9 +101,11 @@ def generic(ctx, fb, where, m, rank, xs, c, row_rule):
                 I.on_dict_store = None
         try:
             with budget(60, '%s m=%d' % (entry, m)):
-                paths = approx_paths(body, records=records)
+                paths = approx_paths(body, records=records, zero_symbols=('c',))
                 for (decisions, W, exc), rec in zip(paths, records):
                     lab = label + ('' if not decisions else '/' + path_text(decisions))
+                    zero = {v[1]: Poly.const(0) for v, o in rec if isinstance(v, tuple) and v[:1] == ('zero',) and o}
+                    rec = [(v, o) for v, o in rec if not (isinstance(v, tuple) and v[:1] == ('zero',))]
                     if exc is not None:
                         rep.violation(rule, construct, wh, {'raises': exc.exc_name, 'message': exc.msg[:100]},
                                       'weights for distinct nodes', lab, key='raises')
@@ -112,7 +114,10 @@ def generic(ctx, fb, where, m, rank, xs, c, row_rule):
                         # equality up to rounding: covered by the instances with identical operands (uniform grids)
                         rep.notes.setdefault('paths_refining_exact_equality', []).append(lab[:160])
                         continue
-                    problems = judge(rep, W, xs, c, nn, m, wh, lab, rule, rows)
+                    if zero and isinstance(W, Arr):
+                        # the code took the side `x0 == 0`: judge it for that x0
+                        W = Arr(W.shape, [(v.subs(zero) if isinstance(v, (Poly, Rat)) else v) for v in W.items()])
+                    problems = judge(rep, W, xs, (c.subs(zero) if zero else c), nn, m, wh, lab, rule, rows)
                     rep.check(not problems, rule, construct, wh, {'nodes': m, 'n': nn, 'mismatches': problems[:3]},
                               'k-th derivative at x0 of the Lagrange basis polynomials', lab, key=key)
                 lossy = []
